@@ -34,6 +34,7 @@ From BCL Require Import Model.Compile Spec.Syntax Proofs.ParserInvProofs Proofs.
 From BCL Require Import Model.Api Proofs.LayoutTree.
 From BCL Require Import Proofs.LexFuel Proofs.LexShift Proofs.LexLocal Proofs.LexLayout.
 From BCL Require Import Proofs.Parens.
+From BCL Require Import Proofs.LayoutProofs Proofs.LayoutTree Proofs.LexLayout Proofs.LexWrite Proofs.LexSound.
 
 Theorem C20_comment_extent : forall body e rest c fuel,
   pending c = [] -> after c = body ++ e :: rest -> (e = 10 \/ e = 13) ->
@@ -288,6 +289,18 @@ Theorem C20_expression_is_complete : forall f q ts e r, pexpr f q ts = Some (e, 
   exists seg, ts = seg ++ r /\ complete seg e.
 Proof. first [exact Parens.pexpr_complete | apply Parens.pexpr_complete]. Qed.
 Print Assumptions C20_expression_is_complete.
+
+(* the token texts interleaved with layout (white space and comments) ARE the source: the lexer drops and invents nothing *)
+Theorem C20_lex_tiles : forall cs ts e, fst (lex cs) = ts ++ [e] -> ttyp e = tEOF ->
+  exists gaps last, length gaps = length ts /\ Forall layout gaps /\ layout_end last /\
+    concat (interleave (gaps ++ [last]) (map tval ts)) = concat cs.
+Proof. first [exact LexSound.lex_tiles | apply LexSound.lex_tiles]. Qed.
+Print Assumptions C20_lex_tiles.
+
+Theorem C20_token_substring : forall cs t, In t (fst (lex cs)) -> ttyp t <> tERR -> ttyp t <> tFAIL ->
+  exists pre post, concat cs = pre ++ tval t ++ post /\ tpos t = nlen pre + nlen (tval t).
+Proof. first [exact LexSound.lex_token_substring | apply LexSound.lex_token_substring]. Qed.
+Print Assumptions C20_token_substring.
 
 Example C20_example :
   map ttyp (fst (lex [bs "print" ++ [194; 160; 11; 12] ++ bs "1 # not ; a ( token" ++ [13] ++ bs "print ""# ; ( "" "])) = [tPRINT; tINT; tPRINT; tSTR; tEOF].
